@@ -239,6 +239,13 @@ struct C07 : Scenario {
       while (i < o.size()) { size_t col = o.find(':', i); if (col == std::string::npos) break; size_t len = atol(o.substr(i, col - i).c_str()); if (col + 1 + len >= o.size() + 0 && col + 1 + len > o.size()) break; char t = o[col + 1]; if (t == 'K') nk++; else if (t == 'Z') nz++; else if (t == 'D') nd++; n++; i = col + 1 + len + 1; }
       if (n) { if (nk == n) { ack = true; cls = 0; } else if (nk > 0) { ack = true; cls = 0; w.counters["partial_acks"]++; } else if (nz) cls = 4; else cls = 5; }
     }
+    if (c->daemon == "smtpd" && !c->cut && c->wellformed && c->input.size() >= 11 && c->input.compare(c->input.size() - 11, 11, "\r\n.\r\nQUIT\r\n") == 0) {
+      // once the server has said 354 the client sends the message: those bytes are data up to CRLF.CRLF whatever happens on the queue side, so
+      // exactly two more replies may follow (one for the message, one for QUIT); more means message lines were executed as commands
+      size_t g = o.find("\r\n354 "); if (g != std::string::npos) { size_t l = o.find("\r\n", g + 2); int n = 0; size_t i = l == std::string::npos ? o.size() : l + 2; while (i < o.size()) { size_t e = o.find("\r\n", i); if (e == std::string::npos) break; if (e >= i + 4 && o[i + 3] == ' ') n++; i = e + 2; }
+        if (n != 2) { w.soft_violation(key + ":data-lines-as-commands", c->name + ": after the 354 reply the server answered " + std::to_string(n) + " more times for a message and a QUIT: message lines were taken as commands [" + esc(o, 300) + "]"); return; }
+        w.counters["data_phase_framing_checked"]++; }
+    }
     if (!c->bodies.empty()) { end_multi(w, key); return; }
     bool committed = false;
     if (c->realqueue) { auto t = w.k.listdir("/var/qmail/queue/todo"); committed = !t.empty(); if (committed) { long n = atol(t[0].c_str()); qmsg = w.k.file(QmailEnv::messpath(n))->data; qenv = w.k.file("/var/qmail/queue/todo/" + t[0])->data; size_t fp = qenv.find('F'); qenv = qenv.substr(fp) + std::string(1, '\0'); size_t rl = qmsg.find('\n'); qmsg = qmsg.substr(rl + 1); } }
